@@ -1,11 +1,32 @@
 """Some tools."""
 
-from typing import List
+import re
+from typing import List, Union
+
+QUOTED_STRING_EXPR = re.compile(r'"(?:[^"\\]|\\.)*"', re.DOTALL)
+
+
+def unquote_string(value: str) -> str:
+    """Return the content of a quoted string (escape sequences removed)."""
+    if len(value) > 1 and value.startswith('"') and value.endswith('"'):
+        return re.sub(r"\\(.)", r"\1", value[1:-1], flags=re.DOTALL)
+    return value
 
 
 def to_list(stringlist: str, unquote: bool = True) -> List[str]:
     """Convert a string representing a list to real list."""
-    stringlist = stringlist[1:-1]
-    return [
-        string.strip('"') if unquote else string for string in stringlist.split(",")
-    ]
+    items = QUOTED_STRING_EXPR.findall(stringlist)
+    return [unquote_string(item) if unquote else item for item in items]
+
+
+def argument_to_python(value: Union[str, List[str]]) -> Union[str, List[str]]:
+    """Convert a string or string list argument to its python value.
+
+    The argument is either a list of quoted strings (parser), the sieve
+    representation of a list or a quoted string (factory).
+    """
+    if isinstance(value, list):
+        return [unquote_string(item) for item in value]
+    if value.startswith("["):
+        return to_list(value)
+    return unquote_string(value)
